@@ -19,7 +19,12 @@ THEOREMS = [
     "Mtv.Session.given_storage_is_used",
 ]
 RULE = ("operations on real files in a per-run scratch directory through session.NewFromFile(...).Store/Load and "
-        "mtproto.NewMTProto: round trips on six path shapes, store/load histories with forced (equal) modification "
+        "mtproto.NewMTProto: round trips on six path shapes (absolute, relative, ./name, bare name; missing directory), "
+        "also in a process whose TMPDIR names no directory / a regular file / a directory on another filesystem, "
+        "Config with SessionStorage (file loader or an in-memory implementation, holding a session or nothing) and "
+        "AuthKeyFile (unset / no file / another session's file / that file cut short / no directory) in every "
+        "combination (c12.cfg: the client resumes with what the given storage holds, SaveSession lands in it, the "
+        "other path stays as it was), store/load histories with forced (equal) modification "
         "times and up to three loaders (a loader whose last successful Load saw another modification time must "
         "behave like a fresh one), a loaded long-lived loader under another writer cut short at every byte, "
         "clients started one after another on ONE long-lived loader (item C: NewMTProto on it; item H: every "
